@@ -1067,7 +1067,7 @@ impl TDigestView<'_> {
                 return Some(if value == self.min {
                     0.5 / centroids_weight
                 } else {
-                    (1. + (((value - self.min) / (first_mean - self.min))
+                    (1. + (difference_ratio(value, self.min, first_mean, self.min)
                         * ((self.centroids[0].weight() / 2.) - 1.)))
                         / centroids_weight
                 });
@@ -1083,7 +1083,7 @@ impl TDigestView<'_> {
                     1. - (0.5 / centroids_weight)
                 } else {
                     1.0 - ((1.0
-                        + (((self.max - value) / (self.max - last_mean))
+                        + (difference_ratio(self.max, value, self.max, last_mean)
                             * ((self.centroids[num_centroids - 1].weight() / 2.) - 1.)))
                         / centroids_weight)
                 });
@@ -1123,16 +1123,18 @@ impl TDigestView<'_> {
         }
         weight_delta -= self.centroids[lower].weight() / 2.;
         weight_delta += self.centroids[upper].weight() / 2.;
-        Some(
-            if self.centroids[upper].mean - self.centroids[lower].mean > 0. {
-                (weight_below
-                    + (weight_delta * (value - self.centroids[lower].mean)
-                        / (self.centroids[upper].mean - self.centroids[lower].mean)))
-                    / centroids_weight
-            } else {
-                (weight_below + weight_delta / 2.) / centroids_weight
-            },
-        )
+        let (lower_mean, upper_mean) = (self.centroids[lower].mean, self.centroids[upper].mean);
+        Some(if upper_mean - lower_mean > 0. {
+            let mut partial = weight_delta * (value - lower_mean) / (upper_mean - lower_mean);
+            if !(partial.is_finite() && (upper_mean - lower_mean).is_finite()) {
+                // values of huge magnitude: a difference, or its product with the weight, overflows
+                partial =
+                    weight_delta * difference_ratio(value, lower_mean, upper_mean, lower_mean);
+            }
+            (weight_below + partial) / centroids_weight
+        } else {
+            (weight_below + weight_delta / 2.) / centroids_weight
+        })
     }
 
     fn quantile(&self, rank: f64) -> Option<f64> {
@@ -1160,19 +1162,19 @@ impl TDigestView<'_> {
         }
         let first_weight = self.centroids[0].weight();
         if first_weight > 1. && weight < first_weight / 2. {
-            return Some(
-                self.min
-                    + (((weight - 1.) / ((first_weight / 2.) - 1.))
-                        * (self.centroids[0].mean - self.min)),
-            );
+            return Some(interpolate(
+                self.min,
+                self.centroids[0].mean,
+                (weight - 1.) / ((first_weight / 2.) - 1.),
+            ));
         }
         let last_weight = self.centroids[num_centroids - 1].weight();
         if last_weight > 1. && (centroids_weight - weight <= last_weight / 2.) {
-            return Some(
-                self.max
-                    - (((centroids_weight - weight - 1.) / ((last_weight / 2.) - 1.))
-                        * (self.max - self.centroids[num_centroids - 1].mean)),
-            );
+            return Some(interpolate(
+                self.max,
+                self.centroids[num_centroids - 1].mean,
+                (centroids_weight - weight - 1.) / ((last_weight / 2.) - 1.),
+            ));
         }
 
         // interpolate between extremes
@@ -1348,8 +1350,34 @@ mod scale_function {
     }
 }
 
+/// `(a - b) / (c - d)`; the operands are halved first when a difference of finite values of huge
+/// magnitude would overflow.
+fn difference_ratio(a: f64, b: f64, c: f64, d: f64) -> f64 {
+    let (numerator, denominator) = (a - b, c - d);
+    if numerator.is_finite() && denominator.is_finite() {
+        numerator / denominator
+    } else {
+        (a / 2. - b / 2.) / (c / 2. - d / 2.)
+    }
+}
+
+/// The point at fraction `t` of the way from `from` to `to`; a convex combination when the
+/// difference of the two (finite) ends overflows.
+fn interpolate(from: f64, to: f64, t: f64) -> f64 {
+    let delta = to - from;
+    if delta.is_finite() {
+        from + t * delta
+    } else {
+        from * (1. - t) + to * t
+    }
+}
+
 const fn weighted_average(x1: f64, w1: f64, x2: f64, w2: f64) -> f64 {
-    let avg = (x1 * w1 + x2 * w2) / (w1 + w2);
+    let mut avg = (x1 * w1 + x2 * w2) / (w1 + w2);
+    if !avg.is_finite() {
+        // a product with the weight overflows for values of huge magnitude
+        avg = x1 * (w1 / (w1 + w2)) + x2 * (w2 / (w1 + w2));
+    }
     // rounding can push the average an ulp outside [x1, x2] (always, for x1 == x2): keep it between its endpoints
     let (lo, hi) = if x1 <= x2 { (x1, x2) } else { (x2, x1) };
     if avg < lo {
